@@ -833,7 +833,7 @@ var c12Scenarios = []string{
 	"fin-branch-node", "fin-header-field", "next-branch-node", "next-key", "sig-g0", "sig-g1", "sig-wrong-msg", "sig-wrong-fork",
 	"sig-wrong-genesis", "signers-one-bit", "bit-flipped-after", "signers-other-committee", "att-field-after", "unpaired", "short-bits",
 	"period+1-current-committee", "bad-key-others-sign", "bad-key-not-participating",
-	"rebootstrap", "same-header-inflated-bits", "same-header-other-subset", "same-header-garbage-sig",
+	"closing-update-of-previous-period", "rebootstrap", "same-header-inflated-bits", "same-header-other-subset", "same-header-garbage-sig",
 }
 
 // build the next step against the CURRENT store of the real client
@@ -893,7 +893,7 @@ func (g *c12Gen) nextStep() c12Step {
 	if g.forceMode != 0 {
 		s.mode = g.forceMode
 	}
-	if c12In([]string{"next-branch-node", "next-key", "old-with-next"}, sc) && s.mode != 'G' {
+	if c12In([]string{"next-branch-node", "next-key", "old-with-next", "closing-update-of-previous-period"}, sc) && s.mode != 'G' {
 		s.mode = 'U'
 	}
 	if c12In([]string{"fin-branch-node", "fin-header-field", "unordered-fin"}, sc) && s.mode == 'O' {
@@ -916,6 +916,8 @@ func (g *c12Gen) nextStep() c12Step {
 		sigP = P - 1
 	case sc == "period+1" || sc == "period+1-current-committee":
 		sigP = P + 1
+	case sc == "closing-update-of-previous-period":
+		sigP = P
 	case nextKnown && r.Intn(3) != 0:
 		sigP = P + 1
 	}
@@ -953,6 +955,13 @@ func (g *c12Gen) nextStep() c12Step {
 	}
 	if sc == "unordered-att" {
 		attSlot = s.sigSlot + uint64(r.Intn(2))
+	}
+	if sc == "closing-update-of-previous-period" && P >= 1 {
+		// the honest closing update of period P-1: attested in its LAST slot, signed in the FIRST slot of P by the committee of P,
+		// carrying the next committee of the P-1 state (= the committee of P).  For a store finalized in P it is not relevant:
+		// neither newer, nor does it supply the next committee of the STORE's period
+		s.sigSlot = P * c12SPP
+		attSlot = P*c12SPP - 1
 	}
 	s.att = g.randHdr(attSlot)
 	// ---- finalized header
@@ -1627,7 +1636,7 @@ func c12Scripts(c *Ctx, keys *c12Keys) {
 	// (Start() retries Sync()), then updates for the next period signed by the committee the first run had learnt: the store
 	// after the second bootstrap is the fresh bootstrap store, so they must be rejected for their period
 	{
-		g, run, _, gen := start(0)
+		g, run, P0, gen := start(0)
 		store0 := g.storeString()
 		obs := []string{run.digest()}
 		var steps, truths []string
@@ -1642,7 +1651,10 @@ func c12Scripts(c *Ctx, keys *c12Keys) {
 		}); ok {
 			add(lr, "learn_next_before_rebootstrap")
 		}
-		if fu, ok := build(g, "valid", 'F', func(s *c12Step) bool { return s.truth == "-" && c12Popcount(s.bits)*3 >= 1024 }); ok {
+		// advance inside the period (a rotation by a finality update would clear the next committee again)
+		if fu, ok := build(g, "valid", 'F', func(s *c12Step) bool {
+			return s.truth == "-" && c12Popcount(s.bits)*3 >= 1024 && s.fin != nil && s.fin.slot/c12SPP == P0
+		}); ok {
 			add(fu, "advance_before_rebootstrap")
 		}
 		rb, _ := build(g, "rebootstrap", 'O', func(s *c12Step) bool { return s.mode == 'B' })
@@ -1679,6 +1691,44 @@ func c12Scripts(c *Ctx, keys *c12Keys) {
 			s, _ := build(g, sc, m, func(s *c12Step) bool { return true })
 			steps, truths, obs = append(steps, s.String()), append(truths, s.truth), append(obs, run.exec(&s))
 			c.Count("script_" + sc + "_" + string(m))
+		}
+		emit(g, run, gen, store0, steps, truths, obs)
+	}
+	// ---- G: a store freshly bootstrapped in period P >= 1 (no next committee) receives the closing update of period P-1
+	// (attested in the last slot of P-1, signed in the first slot of P, two thirds, valid branches, carrying the committee of P
+	// as "next"): not relevant - accepting it would install the committee of P as the NEXT committee.  Then updates for P+1
+	// signed by the committee of P, which only such a store would take.
+	{
+		var g *c12Gen
+		var run *c12Runner
+		var P0 uint64
+		var gen common.Root
+		for {
+			if g, run, P0, gen = start(0); P0 >= 1 {
+				break
+			}
+		}
+		store0 := g.storeString()
+		obs := []string{run.digest()}
+		var steps, truths []string
+		add := func(s c12Step, tag string) {
+			steps = append(steps, s.String())
+			truths = append(truths, s.truth)
+			obs = append(obs, run.exec(&s))
+			c.Count("script_" + tag)
+		}
+		cl, _ := build(g, "closing-update-of-previous-period", 'U', func(s *c12Step) bool {
+			return s.truth == "I" && c12Popcount(s.bits)*3 >= 1024 && s.sigSlot == P0*c12SPP && s.att.slot == P0*c12SPP-1
+		})
+		add(cl, "closing_update_of_previous_period")
+		for _, m := range []byte("OF") {
+			nx, _ := build(g, "period+1-current-committee", m, func(s *c12Step) bool {
+				return c12Popcount(s.bits)*3 >= 1024 && s.sigSlot <= s.now && !strings.ContainsAny(s.truth, "PFOIBCSUL")
+			})
+			add(nx, "next_period_by_current_committee_"+string(m))
+		}
+		if v, ok := build(g, "valid", 'U', func(s *c12Step) bool { return s.truth == "-" && c12Popcount(s.bits)*3 >= 1024 }); ok {
+			add(v, "valid_after_closing_update")
 		}
 		emit(g, run, gen, store0, steps, truths, obs)
 	}
